@@ -215,7 +215,8 @@ def op_line(op):
 def case_text(cid, g, ops, image=None, extra_open=True):
     lines = ['case %s' % cid]
     lines.append(image or ('image format %d %d %d %d' % (g.size, g.cb, g.ro, 512)))
-    lines.append('opt punch=%d' % g.punch)
+    tail = getattr(g, 'tail', None)
+    lines.append(('opt tail=%d:%d punch=%d' % (tail[0], tail[1], g.punch)) if tail else 'opt punch=%d' % g.punch)
     if extra_open:
         lines.append('open ' + g.params())
     for op in ops:
